@@ -1324,3 +1324,101 @@ def r33_cli_handlers(ctx):
             else:
                 ctx.check(nm in dcaught, R, t, d, 'driver %s.py catches the package exception %s' % (d, nm),
                           'listed in its except clause', '%s.py does not catch %s' % (d, nm))
+
+
+# ---------------------------------------------------------------------------
+# R58 what counts as a number, and who reads the file
+# ---------------------------------------------------------------------------
+
+def _digit_regex(e, f):
+    """is e a call `re.match(<digits pattern>, X)` / `<compiled digits>.match(X)`; returns (X name, signed?) or None"""
+    if not (isinstance(e, ast.Call) and isinstance(e.func, ast.Attribute) and e.func.attr in ('match', 'fullmatch')):
+        return None
+    pat = None
+    arg = None
+    if unparse(e.func.value) == 're' and len(e.args) == 2:
+        pat, arg = const_str(e.args[0]), e.args[1]
+    elif isinstance(e.func.value, ast.Name) and len(e.args) == 1:
+        defs = f.assigns().get(e.func.value.id, [])
+        for v, st in defs:
+            if isinstance(v, ast.Call) and unparse(v.func) == 're.compile' and v.args:
+                pat = const_str(v.args[0])
+        arg = e.args[0]
+    if pat is None or not isinstance(arg, ast.Name):
+        return None
+    if pat in (r'\d+$', r'^\d+$', r'\d+\Z', r'[0-9]+$'):
+        return arg.id, False
+    if pat in (r'-?\d+$', r'^-?\d+$'):
+        return arg.id, True
+    return None
+
+
+def r58_numbers_and_files(ctx):
+    """(a) a token is read as a number only if it consists of decimal digits (an optional leading minus where the format has one):
+    every int(<token>) in the reader and the option parser is dominated by the true edge of a full-digit regular-expression match on
+    that token.  int() alone also accepts '1_2', '+3', ' 7 ', non-ASCII digits: nicknames and words would be read as candidate ids.
+    (b) a ballot file is opened in one place, ElectionProfile.bltRead, with encoding utf-8-sig (the byte-order mark is not a token)."""
+    R = 'R58'
+    repo = ctx.repo
+    n = 0
+    for f in repo.funcs.values():
+        if f.module.name not in ('droop.profile', 'droop.options', 'droop.common'):
+            continue
+        cfg = None
+        for c in f.own_nodes():
+            if not (isinstance(c, ast.Call) and isinstance(c.func, ast.Name) and c.func.id == 'int' and len(c.args) == 1):
+                continue
+            a = c.args[0]
+            if not isinstance(a, ast.Name):
+                continue
+            # only string tokens: skip ints that are provably numbers already (int(precision) in the arithmetic classes is elsewhere)
+            n += 1
+            cfg = cfg or cfg_of(f)
+            at = cfg.of_stmt[repo.enclosing_stmt(c)]
+            ok = False
+            for t in cfg.nodes:
+                if t.kind != 'test':
+                    continue
+                tests = []
+                tt = t.ast.test
+                neg = False
+                if isinstance(tt, ast.UnaryOp) and isinstance(tt.op, ast.Not):
+                    tt, neg = tt.operand, True
+                parts = tt.values if isinstance(tt, ast.BoolOp) and isinstance(tt.op, ast.And) and not neg else [tt]
+                for p_ in parts:
+                    r_ = _digit_regex(p_, f)
+                    if r_ and r_[0] == a.id:
+                        lab = not neg
+                        # at is reachable only through the `lab` edge of t (or, for `if not match: raise`, t's other edge does not fall through)
+                        if at not in cfg.reach([cfg.entry], edge_ok=lambda x, y, l, t=t, lab=lab: not (x is t and l is lab), include_start=True):
+                            ok = True
+            ctx.check(ok, R, c, f, 'a token is converted with int() only after it matched a digits-only pattern',
+                      'dominated by a full-digit match on `%s`' % a.id,
+                      '`%s` is not guarded by a digits-only match on `%s`: int() also accepts underscores, signs, blanks and non-ASCII digits, so a '
+                      'nickname or word of that shape is read as a number' % (unparse(c), a.id))
+    ctx.floor(R, 'int() conversions of tokens', n, 6)
+    # (b)
+    opens = []
+    for f in repo.funcs.values():
+        if not (f.module.name.startswith('droop') or f.module.name == 'Droop'):
+            continue
+        for c in f.own_nodes():
+            if isinstance(c, ast.Call) and (unparse(c.func) in ('open', 'io.open', 'codecs.open') or
+                                            (isinstance(c.func, ast.Attribute) and c.func.attr in ('read_text', 'read_bytes', 'open') and unparse(c.func.value) != 'self')):
+                opens.append((f, c))
+    for f, c in opens:
+        isr = f.qualname == PROFILE + '.bltRead'
+        enc = [k.value for k in c.keywords if k.arg == 'encoding']
+        okb = isr and enc and const_str(enc[0]) == 'utf-8-sig'
+        ctx.check(okb, R, c, f, 'a ballot file is opened only by ElectionProfile.bltRead, as utf-8-sig text',
+                  "open(path, 'r', encoding='utf-8-sig')",
+                  '`%s` in %s reads a file %s: a byte-order mark (or another decoding) reaches the tokenizer, and a well-formed file is read differently '
+                  'depending on the entry point' % (unparse(c)[:70], f.qualname, 'outside bltRead' if not isr else 'without encoding utf-8-sig'))
+    ctx.check(any(f.qualname == PROFILE + '.bltRead' for f, c in opens), R, repo.cls(PROFILE).node, PROFILE, 'ElectionProfile.bltRead opens the ballot file', 'found', 'no open() in bltRead', nontrivial=False)
+    # the driver hands the PATH to the profile (the profile does the reading)
+    main = repo.funcs.get('Droop.main')
+    if main is not None:
+        mk = [c for c in main.own_nodes() if isinstance(c, ast.Call) and unparse(c.func).split('.')[-1] == 'ElectionProfile']
+        okp = len(mk) == 1 and any(k.arg == 'path' for k in mk[0].keywords) and not any(k.arg == 'data' for k in mk[0].keywords)
+        ctx.check(okp, R, mk[0] if mk else main.node, main, 'the driver gives the profile the path of the ballot file (the profile reads it)',
+                  'ElectionProfile(path=path)', 'Droop.main builds the profile from text it read itself')
